@@ -439,7 +439,7 @@ Section Strings.
   Lemma dec_try_inv str : forall k L L' r, dec_try G str k L = Ok (L', r) ->
     (L <= L' <= length str)%nat /\ rune_lookup G (firstn L' str) = Ok r.
   Proof.
-    induction k as [|k IH]; intros L L' r H; cbn [dec_try enc_try eru_try] in H; [discriminate|].
+    induction k as [|k IH]; intros L L' r H; cbn [dec_try eru_try] in H; [discriminate|].
     destruct (length str <? L)%nat eqn:E; [discriminate|]. apply Nat.ltb_ge in E.
     destruct (rune_lookup G (firstn L str)) as [r0| |] eqn:E2; try discriminate.
     - injection H as <- <-. split; [lia|exact E2].
@@ -448,7 +448,7 @@ Section Strings.
 
   Lemma dec_try_nopanic str : forall k L, (1 <= L)%nat -> dec_try G str k L <> Panic.
   Proof.
-    induction k as [|k IH]; intros L HL; cbn [dec_try enc_try eru_try]; [discriminate|].
+    induction k as [|k IH]; intros L HL; cbn [dec_try eru_try]; [discriminate|].
     destruct (length str <? L)%nat eqn:E; [discriminate|]. apply Nat.ltb_ge in E.
     destruct (rune_lookup G (firstn L str)) eqn:E2; [discriminate|apply IH; lia|].
     exfalso. eapply (lookup_nopanic G G' HS); [|exact E2]. apply firstn_nonempty. lia.
@@ -458,7 +458,7 @@ Section Strings.
     forall k L, (1 <= L <= length c)%nat -> (length c < L + k)%nat ->
     dec_try G (c ++ rest) k L = Ok (length c, r).
   Proof.
-    intros Hc. induction k as [|k IH]; intros L HL Hk; [lia|]. cbn [dec_try enc_try eru_try].
+    intros Hc. induction k as [|k IH]; intros L HL Hk; [lia|]. cbn [dec_try eru_try].
     replace (length (c ++ rest) <? L)%nat with false.
     2:{ symmetry. apply Nat.ltb_ge. rewrite app_length. lia. }
     rewrite firstn_prefix by lia.
@@ -470,37 +470,10 @@ Section Strings.
       + exfalso. eapply (lookup_nopanic G G' HS); [|exact E]. apply firstn_nonempty. lia.
   Qed.
 
-  (* the Encode / EncodeReplaceUnknown scans look runes up in G as well (G is then the flipped output side) *)
-  Lemma enc_try_inv str hid : forall k L L' r, enc_try G str hid k L = Ok (L', r) ->
-    (L <= L')%nat /\ exists p, slice_to str hid L' = Some p /\ rune_lookup G p = Ok r.
-  Proof.
-    induction k as [|k IH]; intros L L' r H; cbn [dec_try enc_try eru_try] in H; [discriminate|].
-    destruct (slice_to str hid L) as [p|] eqn:E; [|discriminate].
-    destruct (rune_lookup G p) as [r0| |] eqn:E2; try discriminate.
-    - injection H as <- <-. split; [lia|]. exists p. auto.
-    - destruct (IH _ _ _ H) as [A B]. split; [lia|exact B].
-  Qed.
-
-  Lemma enc_try_hit c r rest hid : rune_lookup G c = Ok r ->
-    forall k L, (1 <= L <= length c)%nat -> (length c < L + k)%nat ->
-    enc_try G (c ++ rest) hid k L = Ok (length c, r).
-  Proof.
-    intros Hc. induction k as [|k IH]; intros L HL Hk; [lia|]. cbn [dec_try enc_try eru_try].
-    unfold slice_to. replace (L <=? length (c ++ rest) + length hid)%nat with true.
-    2:{ symmetry. apply Nat.leb_le. rewrite app_length. lia. }
-    rewrite <- app_assoc. rewrite firstn_prefix by lia.
-    destruct (Nat.eq_dec L (length c)) as [->|Hne].
-    - rewrite firstn_all. rewrite Hc. reflexivity.
-    - destruct (rune_lookup G (firstn L c)) eqn:E.
-      + exfalso. eapply (lookup_prefix_free G G' HS c r L); [exact Hc|lia|exact E].
-      + apply IH; lia.
-      + exfalso. eapply (lookup_nopanic G G' HS); [|exact E]. apply firstn_nonempty. lia.
-  Qed.
-
   Lemma eru_try_spec str : forall k L, (1 <= L)%nat ->
     exists L' r, eru_try G str k L = Ok (L', r) /\ (L <= L')%nat.
   Proof.
-    induction k as [|k IH]; intros L HL; cbn [dec_try enc_try eru_try]; [exists L, []; auto|].
+    induction k as [|k IH]; intros L HL; cbn [dec_try eru_try]; [exists L, []; auto|].
     destruct (length str <? L)%nat eqn:E; [exists L, []; auto|]. apply Nat.ltb_ge in E.
     destruct (rune_lookup G (firstn L str)) as [r0| |] eqn:E2.
     - exists L, r0. auto.
@@ -544,9 +517,7 @@ Proof.
   intros Hw Hc. destruct (wf_map_parts rm Hw) as (S1 & S2 & Hlen & Hcard).
   destruct (lookup_inv _ _ S2 r c Hc) as (e & _ & _ & _ & Hl & _).
   split; [intros ->; cbn in Hl; lia|]. intros rest. unfold encode_step.
-  rewrite (enc_try_hit _ _ S2 r c rest hid Hc); [| |]; unfold in_groups in *; try lia.
-  replace (length (r ++ rest) <? length r)%nat with false; [reflexivity|].
-  symmetry. apply Nat.ltb_ge. rewrite app_length. lia.
+  apply (dec_try_hit _ _ S2); [exact Hc| |]; unfold in_groups in *; lia.
 Qed.
 
 Lemma decode_step_inv rm str L r : decode_step rm str = Ok (L, r) ->
@@ -555,14 +526,7 @@ Proof. unfold decode_step. intros H. apply dec_try_inv in H. exact H. Qed.
 
 Lemma encode_step_inv rm hid str L r : encode_step rm hid str = Ok (L, r) ->
   (1 <= L <= length str)%nat /\ encode_rune rm (firstn L str) = Ok r.
-Proof.
-  unfold encode_step. intros H.
-  destruct (enc_try (out_groups rm) str hid (length (inE rm)) 1) as [[L0 r0]| |] eqn:E; try discriminate.
-  destruct (length str <? L0)%nat eqn:E2; [discriminate|]. apply Nat.ltb_ge in E2. injection H as <- <-.
-  apply enc_try_inv in E. destruct E as (HL & p & Hp & Hr).
-  unfold slice_to in Hp. destruct (L0 <=? length str + length hid)%nat; [|discriminate].
-  injection Hp as <-. rewrite firstn_prefix in Hr by lia. split; [lia|exact Hr].
-Qed.
+Proof. unfold encode_step. intros H. apply dec_try_inv in H. exact H. Qed.
 
 Lemma build_both rm cs rs hid : wf_map rm = true ->
   Forall2 (fun c r => decode_rune rm c = Ok r) cs rs ->
@@ -678,18 +642,11 @@ Proof.
   apply emit_length in E. intros ->. cbn in E. lia.
 Qed.
 
-Lemma enc_try_eru_try G str hid : forall k L L' r, enc_try G str hid k L = Ok (L', r) ->
-  (L' <= length str)%nat -> eru_try G str k L = Ok (L', r).
+Lemma dec_try_eru_try G str : forall k L L' r, dec_try G str k L = Ok (L', r) -> eru_try G str k L = Ok (L', r).
 Proof.
-  induction k as [|k IH]; intros L L' r H HL; cbn [enc_try eru_try] in *; [discriminate|].
-  pose proof (enc_try_inv G str hid (S k) L L' r) as Hinv. cbn [enc_try] in Hinv. specialize (Hinv H).
-  destruct Hinv as [HLL _].
-  unfold slice_to in H. destruct (L <=? length str + length hid)%nat; [|discriminate].
-  replace (length str <? L)%nat with false by (symmetry; apply Nat.ltb_ge; lia).
-  rewrite firstn_prefix in H by lia.
-  destruct (rune_lookup G (firstn L str)) as [r0| |]; try discriminate.
-  - exact H.
-  - apply IH; assumption.
+  induction k as [|k IH]; intros L L' r H; cbn [dec_try eru_try] in *; [discriminate|].
+  destruct (length str <? L)%nat; [discriminate|].
+  destruct (rune_lookup G (firstn L str)) as [r0| |]; try discriminate; [exact H|apply IH; exact H].
 Qed.
 
 Lemma loop_agree step1 step2 :
@@ -707,18 +664,24 @@ Theorem replace_unknown_agrees_with_encode rm s hid c : wf_map rm = true ->
 Proof.
   intros Hw H. destruct (wf_map_parts rm Hw) as (S1 & S2 & Hlen & Hcard).
   unfold encode, encode_replace_unknown in *. eapply loop_agree; [|exact H].
-  intros str L r Hstep. unfold encode_step in Hstep. unfold eru_step.
-  destruct (enc_try (out_groups rm) str hid (length (inE rm)) 1) as [[L0 r0]| |] eqn:E; try discriminate.
-  destruct (length str <? L0)%nat eqn:E2; [discriminate|]. apply Nat.ltb_ge in E2. injection Hstep as <- <-.
-  pose proof (enc_try_inv (out_groups rm) str hid _ _ _ _ E) as (HL1 & p & Hp & Hr).
-  rewrite (enc_try_eru_try _ str hid _ _ _ _ E E2).
+  intros str L0 r0 Hstep. unfold encode_step in Hstep. unfold eru_step.
+  pose proof (dec_try_inv (out_groups rm) str _ _ _ _ Hstep) as (HL & Hr).
+  rewrite (dec_try_eru_try _ str _ _ _ _ Hstep).
   assert (Hmax : (L0 <= length (inE rm))%nat).
-  { unfold slice_to in Hp. destruct (L0 <=? length str + length hid)%nat; [|discriminate]. injection Hp as <-.
-    destruct (lookup_inv _ _ S2 _ _ Hr) as (_ & _ & _ & _ & Hb & _).
-    rewrite firstn_length, app_length in Hb. unfold in_groups in Hlen. rewrite Hlen. lia. }
+  { destruct (lookup_inv _ _ S2 _ _ Hr) as (_ & _ & _ & _ & Hb & _).
+    rewrite firstn_length in Hb. unfold in_groups in Hlen. rewrite Hlen. lia. }
   replace (length (inE rm) <? L0)%nat with false by (symmetry; apply Nat.ltb_ge; lia).
-  pose proof (lookup_nonempty _ _ p r0 S2 Hr) as Hne.
+  pose proof (lookup_nonempty _ _ _ r0 S2 Hr) as Hne.
   destruct (length str <=? L0)%nat eqn:E3.
   - apply Nat.leb_le in E3. replace (length str) with L0 by lia. destruct r0; [congruence|reflexivity].
   - destruct r0; [congruence|reflexivity].
+Qed.
+
+(* since 014a463e8: no byte sequence makes Encode crash *)
+Theorem encode_never_panics rm s hid : wf_map rm = true -> encode rm s hid <> Panic.
+Proof.
+  intros Hw. destruct (wf_map_parts rm Hw) as (S1 & S2 & Hlen & Hcard).
+  unfold encode. apply loop_nopanic; [| |lia].
+  - intros str _. unfold encode_step. apply (dec_try_nopanic _ _ S2). lia.
+  - intros str L r H. apply encode_step_inv in H. lia.
 Qed.
